@@ -8,6 +8,11 @@ of the process-global state a real child process would own:
                           spawn: the state right after `import maze_dataset` (random.seed(42))
   numpy legacy global     fork: inherited from the parent at (re)fork time; spawn: simulator-chosen entropy
   _GLOBAL_WORKER_CONFIG   fork: whatever the parent had (possibly a stale config, possibly undefined); spawn: undefined
+  other module globals    every data-valued global (dict / list / set / array / Generator / scalar / config object; not functions,
+                          classes, modules or typing objects) of the library modules listed in ISOLATED_MODULES: a worker owns a
+                          deep copy taken at (re)fork time (spawn: of the state the process had when the seam was installed),
+                          names it creates stay its own, and nothing it rebinds or mutates reaches the parent or another
+                          worker - as in real child processes. `functools` caches are not data and stay shared (DESIGN 10.6).
   identity                parent-global counter that keeps growing across pools and across recycled workers
   base identity           the simulated process itself may be a worker of a pool the caller runs (`base_identity=(k,)`):
                           `current_process()._identity` is then (k,) outside any library pool, and creating a pool raises
@@ -43,6 +48,8 @@ class PoolWorld:
         # the simulated process may itself be a worker of a pool the *caller* runs (identity (k,)); such a (daemonic) process
         # cannot start a pool of its own
         self.base_identity = tuple(base_identity)
+        self.isolate = __import__("os").environ.get("MDSIM_POOL_ISOLATE", "1") != "0"  # "0": the pre-isolation stub (self-test of the seam only)
+        self.import_time_data: dict = {}
         self.start_method = start_method
         self.cpu_count = cpu_count
         self.next_identity = identity_start
@@ -76,11 +83,12 @@ class PoolWorld:
 
 
 class _Worker:
-    def __init__(self, identity, py_state, np_state, gwc):
+    def __init__(self, identity, py_state, np_state, gwc, data=None):
         self.identity = identity
         self.py_state = py_state
         self.np_state = np_state
         self.gwc = gwc
+        self.data = data  # the worker's own module-level data (None: isolation switched off)
         self.done = 0
 
 
@@ -88,6 +96,72 @@ def _mdm():
     import maze_dataset.dataset.maze_dataset as mdm
 
     return mdm
+
+
+ISOLATED_MODULES = (
+    "maze_dataset.dataset.maze_dataset",
+    "maze_dataset.dataset.dataset",
+    "maze_dataset.dataset.collected_dataset",
+    "maze_dataset.generation.generators",
+    "maze_dataset.maze.lattice_maze",
+)
+_DATA_TYPES = (dict, list, set, tuple, np.ndarray, np.random.Generator, int, float, str, bool, bytes, type(None))
+
+
+def _is_data(name: str, val) -> bool:
+    if name.startswith("__") or name == "multiprocessing":
+        return False
+    if isinstance(val, _DATA_TYPES):
+        return True
+    return type(val).__name__ in ("MazeDatasetConfig", "MazeDatasetCollectionConfig", "RandomState")
+
+
+def _module_data() -> dict:
+    "current data-valued globals of the isolated modules, by reference: {(module, name): object}"
+    import sys
+
+    out = {}
+    for mn in ISOLATED_MODULES:
+        mod = sys.modules.get(mn)
+        if mod is None:
+            continue
+        for name, val in list(vars(mod).items()):
+            if _is_data(name, val):
+                out[(mn, name)] = val
+    return out
+
+
+def _copy_data(d: dict) -> dict:
+    "one deep copy of everything (objects reachable under two names stay one object in the copy)"
+    import copy
+
+    try:
+        return copy.deepcopy(d)
+    except Exception:  # noqa: BLE001 - fall back to item by item; what cannot be copied is left shared
+        out = {}
+        for k, v in d.items():
+            try:
+                out[k] = copy.deepcopy(v)
+            except Exception:  # noqa: BLE001
+                out[k] = v
+        return out
+
+
+def _install_data(d: dict):
+    "make the isolated modules hold exactly the data globals in d (others of data type are removed)"
+    import sys
+
+    cur = _module_data()
+    for (mn, name) in cur:
+        if (mn, name) not in d:
+            try:
+                delattr(sys.modules[mn], name)
+            except AttributeError:
+                pass
+    for (mn, name), v in d.items():
+        mod = sys.modules.get(mn)
+        if mod is not None:
+            setattr(mod, name, v)
 
 
 class SimPool:
@@ -127,12 +201,18 @@ class SimPool:
 
     def _in_worker(self, w: _Worker, fn):
         parent = self._parent_snapshot()
+        parent_data = _module_data() if w.data is not None else None
+        if w.data is not None:
+            _install_data(w.data)
         self._install(w.py_state, w.np_state, w.gwc)
         self.world.current = _Proc(w.identity)
         try:
             return fn()
         finally:
             w.py_state, w.np_state, w.gwc = self._parent_snapshot()
+            if w.data is not None:
+                w.data = _module_data()
+                _install_data(parent_data)
             self.world.current = _Proc(self.world.base_identity)
             self._install(*parent)
 
@@ -146,11 +226,15 @@ class SimPool:
         if world.start_method == "fork":
             r = random.Random(entropy)
             py_state = r.getstate()  # CPython: random.seed() from OS entropy in the forked child
-            w = _Worker(ident, py_state, np0, gwc0)
+            w = _Worker(ident, py_state, np0, gwc0, _copy_data(_module_data()) if world.isolate else None)
         else:  # spawn: fresh interpreter that has just imported maze_dataset
             r = random.Random(42)
             rs = np.random.RandomState(entropy % (2**32))
-            w = _Worker(ident, r.getstate(), rs.get_state(), _MISSING)
+            data = None
+            if world.isolate:
+                data = _copy_data(world.import_time_data)
+                data.pop(("maze_dataset.dataset.maze_dataset", "_GLOBAL_WORKER_CONFIG"), None)
+            w = _Worker(ident, r.getstate(), rs.get_state(), _MISSING, data)
         world.log.append(["spawn", ident[0], entropy])
         if self.initializer is not None:
             args = pickle.loads(self.initargs_pickled)
@@ -238,6 +322,9 @@ class Installed:
     def __enter__(self):
         mdm = _mdm()
         self._saved = mdm.multiprocessing
+        if self.world.isolate:
+            # stand-in for "the state right after import" that a spawned child starts from
+            self.world.import_time_data = _copy_data(_module_data())
         mdm.multiprocessing = MPNamespace(self.world)
         return self.world
 
